@@ -569,6 +569,8 @@ def check_same_topology(ctx: Check, tree: Tree) -> None:
 
 def run(ctx: Check, tree: Tree) -> None:
     ctx.decided += [
+        'R-XSTORE (re-add): a family of mass symbols removed from the kinematic variables is not put back by a later store on a path that removed it',
+        'R-KEYTYPE: lookups into the symbol-keyed parameter / kinematic-variable mappings never use a str key',
         "R-BACKSUB: alignment-angle definitions are back-substituted with the completed kinematic variables before they become kinematic variables (structural part of clause d)",
         "R-SAMETOPOLOGY: ids combined with a topology were computed from that same topology (alignments, adapter, builder)",
         "R-NORMALISED: the builder requests the angle symbols of the helicity state chosen by the same predicate (is_opposite_helicity_state) that the adapter uses when it names what it defines",
